@@ -135,4 +135,37 @@ theorem b64EncodeNoPad_len (bs : Bytes) : (b64EncodeNoPad bs).length = (4 * bs.l
   | case3 a b => simp
   | case4 a b c rest ih => simp only [List.length_cons, ih]; omega
 
+/-! ### `as_bytes` / `from_slice` are inverse on 32 bytes -/
+
+
+theorem wordBytes_eq_le64 (w : UInt64) : wordBytes w = le64 w := by
+  simp [wordBytes, le64, List.range_succ]
+
+theorem wordOfBytes_eq_rd64 (b0 b1 b2 b3 b4 b5 b6 b7 : UInt8) (rest : Bytes) :
+    wordOfBytes (b0 :: b1 :: b2 :: b3 :: b4 :: b5 :: b6 :: b7 :: rest) = rd64 b0 b1 b2 b3 b4 b5 b6 b7 := by
+  unfold wordOfBytes rd64
+  congr 1
+  simp only [List.take_succ_cons, List.take_zero, List.foldr_cons, List.foldr_nil]
+  omega
+
+theorem wordBytes_wordOfBytes8 (b0 b1 b2 b3 b4 b5 b6 b7 : UInt8) (rest : Bytes) :
+    wordBytes (wordOfBytes (b0 :: b1 :: b2 :: b3 :: b4 :: b5 :: b6 :: b7 :: rest)) = [b0, b1, b2, b3, b4, b5, b6, b7] := by
+  rw [wordOfBytes_eq_rd64, wordBytes_eq_le64, le64_rd64]
+theorem wordBytes_wordOfBytes (b : Bytes) (h : 8 ≤ b.length) : wordBytes (wordOfBytes b) = b.take 8 := by
+  rcases b with _ | ⟨b0, _ | ⟨b1, _ | ⟨b2, _ | ⟨b3, _ | ⟨b4, _ | ⟨b5, _ | ⟨b6, _ | ⟨b7, rest⟩⟩⟩⟩⟩⟩⟩⟩
+  all_goals first
+    | (exfalso; simp at h; done)
+    | (rw [wordBytes_wordOfBytes8]; simp)
+
+theorem toBytes_ofBytes (bs : Bytes) (h : bs.length = 32) : toBytes (ofBytes bs) = bs := by
+  unfold toBytes ofBytes
+  simp only
+  rw [wordBytes_wordOfBytes bs (by omega), wordBytes_wordOfBytes (bs.drop 8) (by simp; omega),
+    wordBytes_wordOfBytes (bs.drop 16) (by simp; omega), wordBytes_wordOfBytes (bs.drop 24) (by simp; omega)]
+  have e4 : (bs.drop 24).take 8 = bs.drop 24 := List.take_of_length_le (by simp; omega)
+  have e3 : (bs.drop 16).take 8 ++ bs.drop 24 = bs.drop 16 := by
+    have := List.take_append_drop 8 (bs.drop 16); simpa [List.drop_drop] using this
+  have e2 : (bs.drop 8).take 8 ++ bs.drop 16 = bs.drop 8 := by
+    have := List.take_append_drop 8 (bs.drop 8); simpa [List.drop_drop] using this
+  rw [e4, List.append_assoc, List.append_assoc, e3, e2, List.take_append_drop]
 end Xet.Hash
